@@ -513,6 +513,8 @@ def d_task(task):
                                     f"{what0}: the faulty default is needed at the start but no ColangError was observable; outputs {t0}", dict(info0, events=[])))
         elif "ErrSeen" in t0:
             res["errors_although_value_given"] += 1
+            res["viol"].append((f"colang-error-although-the-default-is-not-needed:{fam}:{start}:{header}",
+                                f"{what0}: every start gives the parameter a value, yet a ColangError was reported at the start (the faulty default was evaluated); outputs {t0}", dict(info0, events=[])))
         alpha = ["E1", "E2", "X"]
         hists = [h for n in range(1, maxlen + 1) for h in itertools.product(alpha, repeat=n)]
         if seams.SEED % 2:
@@ -548,6 +550,8 @@ def d_task(task):
                     res["histories_with_restart_of_the_flow"] += 1
                 if not needs_default and any("ErrSeen" in t for t in types):
                     res["errors_although_value_given"] += 1
+                    res["viol"].append((f"colang-error-although-the-default-is-not-needed:{fam}:{start}:{header}:later",
+                                        f"{what0}, history {list(hist)}: every start gives the parameter a value, yet a ColangError was reported (the faulty default was evaluated); outputs {types}", info))
     finally:
         drive.close()
     res["viol"] = _uniq(res["viol"])
